@@ -94,6 +94,26 @@ void dsim_scenario() {
         std::size_t state = 0; int fill = dsim::flip() ? 0xFF : 0x00;
         dsim::plan_note("stackfill=%02x ", fill);
         using S = Tracked<cocls::stack_storage>;
+        auto with_stack = [&](std::size_t &st, auto fn) {
+            S s(st);
+            std::size_t want = s;
+            char *buf = (char *)alloca(want + 16);
+            memset(buf, fill, want + 16);
+            s = (void *)buf;
+            unsigned long r = fn(s);
+            for (std::size_t i = want; i < want + 16; i++) if ((unsigned char)buf[i] != (unsigned char)fill) dsim::fail("C19.block_too_small", "stack storage: bytes behind the %zu byte block were overwritten (state was preset to %zu)", want, want);
+            return r;
+        };
+        {   // the shared size state may be preinitialised by the user: learn the frame size, then try states around it
+            int c0 = dsim::choose(4); int delta = (int)dsim::choose(6);     // -8, -1, 0, +1, +2, +8 relative to the frame size
+            std::size_t learn = 0;
+            with_stack(learn, [&](S &s) { return one_op(s, c0, false, 90); });
+            static const int deltas[6] = {-8, -1, 0, 1, 2, 8};
+            std::size_t preset = learn - 1 + deltas[delta];                   // learn == frame size + 1
+            dsim::plan_note("preset=frame%+d ", deltas[delta]);
+            with_stack(preset, [&](S &s) { return one_op(s, c0, dsim::flip(), 91); });
+            if (dsim::cell_get(NLIVE)) dsim::fail("C19.not_returned", "stack storage: block not returned");
+        }
         reuse_sequence<S>("stack", [&](auto fn) {
             S s(state);
             std::size_t want = s;
